@@ -359,11 +359,14 @@ fn core_eq(a: &Dump, b: &Dump) -> bool {
 }
 
 /// The only states an interrupted action may leave behind: the complete before-state, the complete
-/// after-state, or — for sync and undo, which are documented as "the action proper, then a
+/// after-state, or — only for sync and undo, which are documented as "the action proper, then a
 /// non-renumbering working-set rebuild" — tasks / operations / base version entirely after with
 /// the working set still before. Allowed states are *not* derived from wherever the implementation
 /// happens to commit: an extra commit in the middle of an action is exactly what must be caught.
-fn judge(got: &FullDump, r: &Reference, must_be_boundary: Option<usize>) -> Result<&'static str, String> {
+fn judge(got: &FullDump, r: &Reference, must_be_boundary: Option<usize>, action: &str) -> Result<&'static str, String> {
+    // only these are documented as two steps (the action proper, then a working-set rebuild);
+    // commit_operations and rebuild_working_set are one transaction each
+    let two_step = matches!(action, "undo" | "sync" | "fresh-sync");
     let detail = |got: &FullDump| {
         format!(
             "vs before: tasks [{}] unsynced {}→{} base changed: {} ws {:?}→{:?}; vs after: tasks [{}] unsynced {}→{} base differs: {}",
@@ -388,7 +391,7 @@ fn judge(got: &FullDump, r: &Reference, must_be_boundary: Option<usize>) -> Resu
             }
             return Err(format!("after the last commit (#{}) returned Ok and the process died, the reopened store is not the after-state: {}", c + 1, detail(got)));
         }
-        if core_eq(&got.d, &r.after.d) && got.d.ws == r.before.d.ws {
+        if two_step && core_eq(&got.d, &r.after.d) && got.d.ws == r.before.d.ws {
             return Ok("after-commit");
         }
         return Err(format!("after commit #{} of {} returned Ok and the process died, tasks / operations / base version are not the complete after-state (the action has a commit in its middle?): {}", c + 1, r.boundaries.len(), detail(got)));
@@ -399,7 +402,7 @@ fn judge(got: &FullDump, r: &Reference, must_be_boundary: Option<usize>) -> Resu
     if *got == r.after {
         return Ok("after");
     }
-    if core_eq(&got.d, &r.after.d) && got.d.ws == r.before.d.ws && got.task_ops == r.after.task_ops {
+    if two_step && core_eq(&got.d, &r.after.d) && got.d.ws == r.before.d.ws && got.task_ops == r.after.task_ops {
         return Ok("between-transactions");
     }
     Err(format!("reopened store is neither the complete before-state nor the complete after-state: {}", detail(got)))
@@ -505,7 +508,7 @@ fn sweep_case(i: u64, seed: u64, child_every: u64, fresh: bool, out: &mut CaseOu
                 }
             };
             let must = if mode == "abort-after" { r.commit_calls.iter().position(|c| *c == k) } else { None };
-            match judge(&got, &r, must) {
+            match judge(&got, &r, must, action) {
                 Ok(which) => *outcomes.entry(which).or_insert(0) += 1,
                 Err(e) => {
                     let mut rp = replay.clone();
